@@ -14,7 +14,10 @@ func init() { All["C19"] = C19 }
 
 func etEncode(t time.Time) ([]byte, string) {
 	et := protocol.EventTime{Time: t}
-	b := make([]byte, 8)
+	// the destination is whatever the caller (msgp.AppendExtension, a reused msgp.Writer
+	// window) hands in: never assume it is zeroed
+	etFill++
+	b := bytes.Repeat([]byte{[]byte{0x00, 0xa5, 0xff, 0x5a}[etFill%4]}, 8)
 	var err error
 	if p := safely(func() { err = et.MarshalBinaryTo(b) }); p != nil {
 		return nil, "panic"
@@ -24,6 +27,8 @@ func etEncode(t time.Time) ([]byte, string) {
 	}
 	return b, hx(b)
 }
+
+var etFill int
 
 func etDecode(b []byte) (time.Time, string) {
 	var et protocol.EventTime
